@@ -60,16 +60,29 @@ pub fn run(ctx: &mut Ctx) {
         ctx.check(outcomes[0] == outcomes[1], || "[user-immediate-sees-stack] C15 `7` then `: imm immediate drop ; imm`".to_string(),
             || format!("compile+run ends like eval: {}", outcomes[0]), || outcomes[1].clone());
     }
+    // idle interpreters with a past: `exit` seen in a rejected source's meta block, `exit` at run time followed by the
+    // REPL's abort_run, a failed line aborted, values left on the stack — all of them idle, none of it may matter
+    let bases: Vec<(&str, Xstate)> = {
+        let mut v: Vec<(&str, Xstate)> = vec![("fresh", base.clone())];
+        let mut b = base.clone(); b.intercept_stdout(true); let _ = b.eval("#( 0 exit #) nosuchword"); v.push(("rejected-exit", b));
+        let mut b = base.clone(); b.intercept_stdout(true); let _ = b.eval("1 0 exit 2"); b.abort_run(); v.push(("exit-aborted", b));
+        let mut b = base.clone(); b.intercept_stdout(true); let _ = b.eval("3 4 1 0 / 5"); b.abort_run(); v.push(("failed-aborted", b));
+        let mut b = base.clone(); b.intercept_stdout(true); let _ = b.compile("7 8"); let _ = b.run(); v.push(("ran-earlier", b));
+        v
+    };
     let mut n_done = 0;
     while n_done < ctx.n {
         let (src, tags) = if ctx.rng.chance(10) { (drive_shape(&mut ctx.rng), vec!["drive-shape"]) } else { gen_program(&mut ctx.rng, &cfg) };
         if src.contains(" immediate ") { ctx.tag("prog:user-immediate"); }
         n_done += 1;
         for t in tags.iter() { ctx.tag(&format!("prog:{}", t)); }
+        let (bname, bstate) = { let i = if ctx.rng.chance(25) { ctx.rng.below(bases.len()) } else { 0 }; (bases[i].0, &bases[i].1) };
+        ctx.tag(&format!("base:{}", bname));
+        ctx.progress(&format!("C15 base={} `{}`", bname, src));
         let mut results: Vec<(String, String)> = Vec::new();
         for rec in [false, true] {
             for mode in ["eval", "run", "step"] {
-                let mut xs = base.clone();
+                let mut xs = bstate.clone();
                 xs.intercept_stdout(true);
                 xs.set_recording_enabled(rec);
                 xs.set_insn_limit(Some(LIMIT)).unwrap();
@@ -95,7 +108,7 @@ pub fn run(ctx: &mut Ctx) {
         let all_same = results.iter().all(|(_, t)| *t == first);
         ctx.tag(if first.starts_with("ok") { "result:ok" } else if first.contains("limit reached") { "result:limit" } else { "result:err" });
         let obs = results.iter().map(|(m, t)| format!("{}: {}", m, t)).collect::<Vec<_>>().join("\n");
-        ctx.check(all_same, || format!("C15 `{}`", src), || format!("all six drive modes end like eval/norec: {}", first), || obs);
+        ctx.check(all_same, || format!("C15 base={} `{}`", bname, src), || format!("all six drive modes end like eval/norec: {}", first), || obs);
         // correspondence on the compiled bytecode: run vs step*, recording off/on (not for user-defined immediate words:
         // what they do at build time — output, stack — is not part of the machine set-up handed to the model)
         if src.contains(" immediate ") { ctx.tag("skipped:user-immediate"); continue; }
